@@ -342,7 +342,7 @@ func returnsFrom(fn *ssa.Function, first ssa.Instruction) []*ssa.Return {
 // ruleCycleErr (W-cycleerr, X-iscycle).
 func ruleCycleErr(rule string) RuleFn {
 	return func(c *an.Ctx) {
-		c.Rule(rule, "W-cycleerr/X-iscycle: errCycleDetected values are constructed only in Scope.cycleDetectedError; cycleDetectedError is called only with the cycle reported by a failed graph.IsAcyclic call; IsCycleDetected returns exactly the result of one errors.As(err, *errCycleDetected) - so IsCycleDetected is true exactly for cycle rejections")
+		c.Rule(rule, "W-cycleerr/X-iscycle: errCycleDetected values are constructed only in Scope.cycleDetectedError and on the re-entry edge of constructorNode.Call; cycleDetectedError is called only with the cycle reported by a failed graph.IsAcyclic call; IsCycleDetected returns exactly the result of one errors.As(err, *errCycleDetected) - so IsCycleDetected is true exactly for cycle rejections")
 		n := 0
 		for _, fn := range c.P.Funcs {
 			an.Instrs(fn, func(in ssa.Instruction) {
@@ -353,6 +353,14 @@ func ruleCycleErr(rule string) RuleFn {
 						return
 					}
 					n++
+					// the second legitimate site: the re-entry test of the constructor executor (a constructor found
+					// 'being built' again is on a dependency cycle, see G-ctor-reentry) - only under that test
+					if nm == "(*dig.constructorNode).Call" {
+						pos := an.BoolEdges(fn, func(v ssa.Value) bool { return an.Norm(v) == "p:n.building" }, true)
+						hit, _ := an.PathTo(fn, nil, an.IsInstr(al), an.NewGates().AddEdges(pos...))
+						c.Check(len(pos) > 0 && hit == nil, rule, "errCycleDetected constructed in "+nm, "only on the re-entry edge (n.building)", "a cycle error is manufactured in the constructor executor outside its re-entry test: IsCycleDetected becomes true for non-cycle rejections", al, nil)
+						return
+					}
 					c.Check(nm == "(*dig.Scope).cycleDetectedError", rule, "errCycleDetected constructed in "+nm, "owner", "a cycle error is manufactured outside cycleDetectedError: IsCycleDetected becomes true for non-cycle rejections", al, nil)
 				}
 			})
